@@ -43,7 +43,10 @@ let run_case (id : string) (c : case) (obs : Buffer.t) : bool =
                    ^ (if rank <= 1 || !has_ge then b01 (v_ge a b m) else "-") in
         (* views, owning copies, mixed: one value, whatever the layout or ownership *)
         let en = b01 (v_eq a b m) ^ b01 (v_ne a b m) in
-        pr (Printf.sprintf "C %s %s%s view=%s array=%s mixed=%s" id names.(p) names.(q) bits (String.sub bits 0 5) (en ^ en ^ en ^ en)))
+        (* against b + 0.5 in double: equal only when there is no element to compare *)
+        let eh = v_eq a b m && i (l_num_elements a.lay) = 0 in
+        let eh2 = b01 eh ^ b01 (not eh) in
+        pr (Printf.sprintf "C %s %s%s view=%s array=%s mixed=%s" id names.(p) names.(q) bits (String.sub bits 0 5) (en ^ en ^ en ^ en ^ eh2 ^ eh2)))
       pairs;
     true
   end
